@@ -28,7 +28,12 @@ func jsonToPlainStringMap(resultKey string, result map[string]string, data []byt
 		case jsonparser.Object:
 			return jsonToPlainStringMap(newResultKey, result, value)
 		case jsonparser.String:
-			result[newResultKey] = string(value)
+			// value is a raw (still escaped) content of the JSON string
+			str, err := jsonparser.ParseString(value)
+			if err != nil {
+				return jsonparser.MalformedStringEscapeError
+			}
+			result[newResultKey] = str
 		case jsonparser.Number:
 			result[newResultKey] = string(value)
 		}
